@@ -5,8 +5,12 @@
 (* (suppressing the global callbacks) or, when there is none, run the GLOBAL callbacks.                             *)
 (* MarkAbandoned = TRUE is the repaired code: a waiter that timed out is marked under the lock, and a late          *)
 (* onConnect leaves its entry in place so that the close that follows is suppressed too.                            *)
+(* Teardown: Fence sets shuttingDown under the lock and wakes the parked callers; a caller that wakes without a      *)
+(* result returns ShuttingDown and leaves its entry to the teardown (ReturnShutdown); the engine's stop() then        *)
+(* closes every session (IoOnClose).  MarkAbandonedOnTeardown = TRUE is the repaired code (finding F-04b): that       *)
+(* caller marks its entry too, so a connect that completes between its decision and the close does not consume it.   *)
 EXTENDS Naturals, FiniteSets, TLC
-CONSTANTS Callers, MarkAbandoned
+CONSTANTS Callers, MarkAbandoned, MarkAbandonedOnTeardown, WithTeardown
 VARIABLES pc, sid, pend, done, res, abandoned, eng, closeCmd, gConnect, gClose, handed, nextSid, shutting
 vars == <<pc, sid, pend, done, res, abandoned, eng, closeCmd, gConnect, gClose, handed, nextSid, shutting>>
 \* eng[s] \in {"connecting", "open", "closed"}; pend : set of session ids with a pending entry
@@ -20,6 +24,13 @@ Register(c) == /\ pc[c] = "start" /\ ~shutting
                /\ eng' = [eng EXCEPT ![nextSid] = "connecting"] /\ pend' = pend \cup {nextSid}
                /\ pc' = [pc EXCEPT ![c] = "parked"]
                /\ UNCHANGED <<done, res, abandoned, closeCmd, gConnect, gClose, handed, shutting>>
+Fence == /\ WithTeardown /\ ~shutting /\ shutting' = TRUE
+         /\ UNCHANGED <<pc, sid, pend, done, res, abandoned, eng, closeCmd, gConnect, gClose, handed, nextSid>>
+\* woken by the fence, no result yet: ShuttingDown; the pending entry stays (teardown owns the maps)
+ReturnShutdown(c) == /\ pc[c] = "parked" /\ shutting /\ sid[c] \notin done
+                     /\ abandoned' = IF MarkAbandonedOnTeardown THEN abandoned \cup {sid[c]} ELSE abandoned
+                     /\ pc' = [pc EXCEPT ![c] = "returned"] /\ res' = [res EXCEPT ![c] = "shutdown"]
+                     /\ UNCHANGED <<sid, pend, done, eng, closeCmd, gConnect, gClose, handed, nextSid, shutting>>
 WakeDone(c) == /\ pc[c] = "parked" /\ sid[c] \in done
                /\ pc' = [pc EXCEPT ![c] = "returned"]
                /\ handed' = IF res[c] = "ok" THEN handed \cup {sid[c]} ELSE handed
@@ -52,7 +63,8 @@ IoOnClose(s) == /\ eng[s] \in {"connecting", "open"} /\ (eng[s] = "open" \/ s \i
                         /\ res' = [res EXCEPT ![CallerOf(s)] = IF @ = "-" /\ pc[CallerOf(s)] = "parked" THEN "err" ELSE @] /\ UNCHANGED gClose
                    ELSE gClose' = gClose \cup {s} /\ UNCHANGED <<pend, done, res>>
                 /\ UNCHANGED <<pc, sid, abandoned, closeCmd, gConnect, handed, nextSid, shutting>>
-Next == \/ \E c \in Callers : Register(c) \/ WakeDone(c) \/ TimeoutUnlock(c) \/ IssueClose(c) \/ ReturnTimeout(c)
+Next == \/ Fence
+        \/ \E c \in Callers : Register(c) \/ WakeDone(c) \/ TimeoutUnlock(c) \/ IssueClose(c) \/ ReturnTimeout(c) \/ ReturnShutdown(c)
         \/ \E s \in Sids : IoOnConnect(s) \/ IoOnClose(s)
 Spec == Init /\ [][Next]_vars
 \* the global callbacks never see a session no caller was given - or will be given: a completed, not yet returned ok counts
